@@ -139,6 +139,8 @@ class LineTool:
 
     def stop_reach(self):
         r, self.reach = self.reach, None
+        if not self.counting and self.yield_p == 0.0:
+            self.stop()         # no line events until a failpoint / yield phase asks for them again (they cost 3-4x otherwise)
         out = {}
         for (fn, line), n in (r or {}).items():
             out.setdefault(os.path.relpath(fn, self.prefix), {})[line] = n
